@@ -310,7 +310,15 @@ func c03Run(env *fw.Env, ruleText string, modes string) fw.Result {
 	if err := c03Build(); err != nil {
 		return fw.Result{Verdict: fw.Inconclusive, Msg: err.Error()}
 	}
-	rules, ok := ref.ParseRules(ruleText)
+	// "\x00none": no rule file; "\x00dir" / "\x00longline": a rule file that
+	// exists but cannot be used (a directory; a line of 70000 characters) -
+	// the built-in rules apply in all three cases
+	noRuleFile := strings.HasPrefix(ruleText, "\x00")
+	parseText := ruleText
+	if noRuleFile {
+		parseText = ""
+	}
+	rules, ok := ref.ParseRules(parseText)
 	if !ok {
 		res.Class = "degenerate-rule-file"
 		return res
@@ -346,11 +354,17 @@ func c03Run(env *fw.Env, ruleText string, modes string) fw.Result {
 	term := []string{"\n", "", "\n", "\r\n", "\n", ""}[fw.HashString(ruleText)%6]
 	res.Case.(map[string]interface{})["file_ends_with"] = term
 	write := func(dir string) {
-		os.Remove(dir + "/.terraformignore")
-		if ruleText != "\x00none" {
+		os.RemoveAll(dir + "/.terraformignore")
+		switch {
+		case ruleText == "\x00dir":
+			os.Mkdir(dir+"/.terraformignore", 0755)
+		case ruleText == "\x00longline":
+			os.WriteFile(dir+"/.terraformignore", []byte("*.tf\n"+strings.Repeat("x", 70000)+"\n*.b\n"), 0644)
+		case !noRuleFile:
 			os.WriteFile(dir+"/.terraformignore", []byte(ruleText+term), 0644)
 		}
 	}
+	ruleFileShipped := !noRuleFile || ruleText == "\x00longline"
 	evals := 0
 	if strings.Contains(modes, "P") {
 		write("/c03/src")
@@ -365,7 +379,7 @@ func c03Run(env *fw.Env, ruleText string, modes string) fw.Result {
 		for k := range want {
 			w2[k] = true
 		}
-		if ruleText != "\x00none" && !ref.Excluded(rules, ".terraformignore") {
+		if ruleFileShipped && !ref.Excluded(rules, ".terraformignore") {
 			w2[".terraformignore"] = true
 		}
 		if extra, missing := c03Diff(w2, got, ""); len(extra)+len(missing) > 0 {
@@ -380,7 +394,7 @@ func c03Run(env *fw.Env, ruleText string, modes string) fw.Result {
 			return fail("pack-ignore-off", nil, nil, fmt.Errorf("%v %s", obs.Err, obs.Panic))
 		}
 		all := map[string]bool{}
-		if ruleText != "\x00none" {
+		if ruleFileShipped {
 			all[".terraformignore"] = true
 		}
 		for _, p := range uni {
@@ -402,7 +416,7 @@ func c03Run(env *fw.Env, ruleText string, modes string) fw.Result {
 		}
 		w2 := map[string]bool{}
 		fixed := []string{"top.txt", "a/inner.txt"}
-		if ruleText != "\x00none" {
+		if ruleFileShipped {
 			fixed = append(fixed, ".terraformignore")
 		}
 		for _, p := range append(fixed, prefixAll("ext/", uni)...) {
@@ -427,7 +441,7 @@ func c03Run(env *fw.Env, ruleText string, modes string) fw.Result {
 				w2[k] = true
 			}
 		}
-		if ruleText != "\x00none" && !ref.Excluded(rules, ".terraformignore") {
+		if ruleFileShipped && !ref.Excluded(rules, ".terraformignore") {
 			w2[".terraformignore"] = true
 		}
 		if extra, missing := c03Diff(w2, got, ""); len(extra)+len(missing) > 0 {
@@ -549,10 +563,10 @@ func init() {
 		},
 	}
 	noFile := &fw.Phase{
-		Name: "no-rule-file-default-rules-only", Chroot: true, Exhaustive: true,
-		N: func(string) int { return 1 },
+		Name: "no-usable-rule-file-default-rules-only", Chroot: true, Exhaustive: true,
+		N: func(string) int { return 3 },
 		Run: func(env *fw.Env, idx int) fw.Result {
-			r := c03Run(env, "\x00none", "PODB")
+			r := c03Run(env, []string{"\x00none", "\x00dir", "\x00longline"}[idx], []string{"PODB", "PD", "PD"}[idx])
 			r.NonTrivial = true
 			return r
 		},
